@@ -472,6 +472,71 @@ def prange_sites(ix):
     return sites
 
 
+ALLOCATORS = {"np.empty", "np.zeros", "np.ones", "np.full", "np.empty_like", "np.zeros_like", "np.ones_like", "np.full_like", "np.array", "np.copy"}
+
+
+def prange_shared_writes(ix):
+    """syntax-level dependence scan of every nb.prange loop: a store inside the loop body must
+    go to a function parameter indexed by the prange variable, or to an array allocated inside
+    the loop body (private to the iteration).  A store to an array that lives outside the loop
+    and is not indexed by the prange variable is shared by all threads: a data race.
+    Returns [(rel, qualname, line, message)]."""
+    out = []
+    for m in ix.modules.values():
+        if not m.rel.startswith("pde/backends/numba"):
+            continue
+        for f in m.functions.values():
+            params = {a.arg for a in f.node.args.args + f.node.args.kwonlyargs}
+            for loop in ast.walk(f.node):
+                if not (isinstance(loop, ast.For) and isinstance(loop.iter, ast.Call) and dotted(loop.iter.func).endswith("prange") and _owner(f.node, loop) is f.node):
+                    continue
+                if not isinstance(loop.target, ast.Name):
+                    continue
+                pv = loop.target.id
+                # names that depend on the prange variable (i_s = i - 1 ...) and arrays allocated per iteration
+                dep = {pv}
+                private = set()
+                changed = True
+                body_nodes = [n for st in loop.body for n in ast.walk(st)]
+                while changed:
+                    changed = False
+                    for n in body_nodes:
+                        if isinstance(n, ast.Assign) and len(n.targets) == 1 and isinstance(n.targets[0], ast.Name):
+                            t = n.targets[0].id
+                            if t not in dep and any(isinstance(x, ast.Name) and x.id in dep for x in ast.walk(n.value)):
+                                dep.add(t)
+                                changed = True
+                            if isinstance(n.value, ast.Call) and dotted(n.value.func) in ALLOCATORS and t not in private:
+                                private.add(t)
+                                changed = True
+                            # views of the prange slice of a parameter: out_x = out[i] ...
+                            if isinstance(n.value, ast.Subscript) and t not in private and any(isinstance(x, ast.Name) and x.id in dep for x in ast.walk(n.value.slice)):
+                                private.add(t)
+                                changed = True
+                for n in body_nodes:
+                    targets = []
+                    if isinstance(n, ast.Assign):
+                        targets = n.targets
+                    elif isinstance(n, ast.AugAssign):
+                        targets = [n.target]
+                    for t in targets:
+                        if not isinstance(t, ast.Subscript):
+                            continue
+                        base = t.value
+                        while isinstance(base, ast.Subscript):
+                            base = base.value
+                        if not isinstance(base, ast.Name):
+                            continue
+                        if base.id in private:
+                            continue
+                        uses_pv = any(isinstance(x, ast.Name) and x.id in dep for x in ast.walk(t.slice))
+                        # views of a parameter may be aliased before the loop (out_x = out[0]); those are indexed by pv inside
+                        if not uses_pv:
+                            where = "a parameter" if base.id in params else "an array that lives outside the loop"
+                            out.append((m.rel, f.qualname, n.lineno, f"`{ast.unparse(t)}` is stored inside `for {pv} in nb.prange(...)` but `{base.id}` is {where} and the index does not involve `{pv}`: all threads write the same cells (data race; the result depends on the schedule)"))
+    return out
+
+
 # ----------------------------------------------------------------------------
 def binary_operator_routes(rep: Report, ix):
     """(g) dot / outer products: field method, numpy closure and numba overload, each with
@@ -552,6 +617,21 @@ def check(tier: str) -> Report:
     )
     ix = get_index()
     cfg = read_config_defaults(ix)
+    # ------------------------------------------------------------------ (f0) syntax-level race scan (before any extraction)
+    racy = set()
+    for rel, qn, line, msg in prange_shared_writes(ix):
+        qn = qn.split("#")[0]  # (several definitions of one name in a factory are numbered by the index)
+        racy.add(f"{rel}::{qn}")
+        rep.violation("C03.prange-dependence", f"{rel}::{qn}::prange-shared-write", msg, line=line)
+    rep.oblige("no store inside a prange loop goes to memory shared between iterations (syntax-level scan)", not racy, sorted(racy))
+
+    def demoted(err: str) -> bool:
+        """extraction failures inside a kernel already reported as racy are notes, not analysis errors"""
+        if any(r in err for r in racy):
+            rep.note(f"extraction skipped for a kernel already in violation: {err[:200]}")
+            return True
+        return False
+
     # ------------------------------------------------------------------ (a)
     jobs = []
     sregs = [r for r in registrations(ix, "ScipyBackend", "pde/backends/scipy/operators/") if r.grid_cls == "CartesianGrid" and r.name != "poisson_solver"]
@@ -587,6 +667,8 @@ def check(tier: str) -> Report:
         name, n_axes, options = res["job"]
         tag = f"scipy-vs-numba:{name}/{n_axes}:{c01._fmt(options)}"
         if "error" in res:
+            if demoted(res["error"]):
+                continue
             raise AnalysisError(f"{tag}: {res['error']}")
         rep.saw("sibling rows", tag)
         rep.oblige(tag, not res["diffs"], res["diffs"][:2])
@@ -643,6 +725,11 @@ def check(tier: str) -> Report:
         gcls, name, n_axes, options, extra = res["job"]
         tag = f"prange:{gcls}/{n_axes}:{name}:{c01._fmt(options)}"
         if "error" in res:
+            if demoted(res["error"]):
+                for rel_, qn_, line_ in sites:
+                    if f"{rel_}::{qn_.split('#')[0]}" in racy:
+                        analysed.add((rel_, line_))
+                continue
             raise AnalysisError(f"{tag}: {res['error']}")
         for fn, line in res["prange_sites"]:
             analysed.add((fn.split("::")[0], line))
